@@ -82,6 +82,13 @@ type WAL struct {
 	// waits on the close before acquiring the lock and continuing.
 	triggerRotate chan uint64
 	awaitRotate   chan struct{}
+
+	// writeErr is set (under writeMu) when a state change was durably committed
+	// to the meta store but could not be completed in memory, e.g. because
+	// creating the new tail file failed. From then on the in-memory state no
+	// longer matches the meta store, so further writes are refused until the WAL
+	// is reopened (Open repairs the on-disk state from the meta store).
+	writeErr error
 }
 
 type walOpt func(*WAL)
@@ -299,6 +306,11 @@ func (w *WAL) mutateStateLocked(tx stateTxn) error {
 
 	if postCommit != nil {
 		if err := postCommit(); err != nil {
+			// The new state is already durable but we can't publish it. Anything
+			// appended through the old in-memory state from now on would go to
+			// files the meta store may no longer name and would be lost on the
+			// next Open, so stop accepting writes.
+			w.writeErr = fmt.Errorf("WAL must be reopened: a state change was committed but could not be completed: %w", err)
 			return err
 		}
 	}
@@ -393,6 +405,10 @@ func (w *WAL) StoreLogs(logs []*raft.Log) error {
 	// Ensure queued rotation has completed before us if we raced with it for
 	// write lock.
 	w.awaitRotationLocked()
+
+	if w.writeErr != nil {
+		return w.writeErr
+	}
 
 	s, release := w.acquireState()
 	defer release()
@@ -500,6 +516,10 @@ func (w *WAL) DeleteRange(min uint64, max uint64) error {
 	// Ensure queued rotation has completed before us if we raced with it for
 	// write lock.
 	w.awaitRotationLocked()
+
+	if w.writeErr != nil {
+		return w.writeErr
+	}
 
 	s, release := w.acquireState()
 	defer release()
